@@ -1314,6 +1314,17 @@ func (timeComp) Gen(rng *rand.Rand, tier string) [][]string {
 		h = append(h, "has 0b", "sleep "+fmt.Sprint(250*ms), "sweep", "has 0b", "has 0a", "sleep "+fmt.Sprint(100*ms), "sweep", "has 0b", "has 0a")
 		hs = append(hs, h)
 	}
+	// "keep for ever" spans (up to the largest Duration): the expiry arithmetic must not wrap
+	for d, big := range []string{"9223372036854775807", "7884000000000000000", "9223372036854775806"} {
+		kind := []string{"tc", "peer", "tc"}[d]
+		h := []string{fmt.Sprintf("begin timecache kind=%s span=%d", kind, 60*ms)}
+		h = append(h, fmt.Sprintf("upsert 0a %s -", big), "sweep", "has 0a")
+		if kind == "tc" {
+			h = append(h, fmt.Sprintf("addspan 0b %s -", big), "sweep", "has 0b")
+		}
+		h = append(h, fmt.Sprintf("upsert 0a %d -", 40*ms), "sleep "+fmt.Sprint(120*ms), "sweep", "has 0a", "has 0b")
+		hs = append(hs, h)
+	}
 	// schedules: an upsert of an expired, unswept key racing a sweep over a large cache
 	nRace := 2
 	if tier == "thorough" {
